@@ -265,7 +265,8 @@ func (p *notifier) Run() error {
 	// do outside of main loop to prevent long running read
 	for _, event := range readyToRetry {
 		if err := p.notifyNow(event); err != nil {
-			if event.Retries < maxRetries {
+			// like in Notify: a fatal error from the receiver ends the retries
+			if event.Retries < maxRetries && !errors.As(err, new(EventFatal)) {
 				failedAtStartup = append(failedAtStartup, event)
 			}
 		}
